@@ -373,8 +373,11 @@ func checkEnvelope(data []byte, expectedType msgType) ([]byte, error) {
 		headerLen  = int(data[5])
 		flags      = data[6]
 		actualType = msgType(data[7])
-		payload    = data[headerLen:]
 	)
+	if headerLen < envelopeMinHeaderLen || headerLen > len(data) {
+		return nil, fmt.Errorf("invalid envelope header length: %d", headerLen)
+	}
+	payload := data[headerLen:]
 
 	if actualType != expectedType {
 		return nil, fmt.Errorf("MsgType mismatch: expected %v, got %v", expectedType, actualType)
